@@ -760,6 +760,15 @@ func (w *world) runCase(tr *hx.Trace, gen string, cd caseDesc, doc map[string]in
 		}
 	}
 
+	// strict + accepted with a verified proof: every member of the accepted document must be covered by the signature,
+	// i.e. survive JSON-LD expansion (what canonicalisation starts from); counted leaf by leaf with json-gold itself
+	if runStrict && vs.Accepted && vs.Verifies >= 1 {
+		if nd, ne, err := w.leafCoverage(b); err != nil || nd != ne {
+			fail("strict-accepted-uncovered-member", fmt.Sprintf("edit %s: accepted in strict mode with %d verified proof(s), but the document has %d leaves and only %d are in its expanded form (%v)",
+				cd.Edit, vs.Verifies, nd, ne, err))
+		}
+	}
+
 	if rec.contract != "" || recS.contract != "" {
 		fail("primitive-contract", rec.contract+recS.contract)
 	}
@@ -846,7 +855,7 @@ func main() {
 		}
 	}
 
-	nDocs, coqBudget, leafCap := 35, 1500, 36
+	nDocs, coqBudget, leafCap := 32, 1400, 36
 	if args.Tier == "thorough" {
 		nDocs, coqBudget, leafCap = 250, 12000, 120
 	}
@@ -881,7 +890,9 @@ func main() {
 				continue
 			}
 
-			withCoq := coqUsed < coqBudget && (e.class != "must-reject" || j%3 == i%3 || strings.HasPrefix(e.name, "opt"))
+			// the Coq budget is spread over the documents (what one document leaves unused carries over)
+			allowed := (i+1)*coqBudget/nDocs - coqUsed
+			withCoq := allowed > 0 && (e.class != "must-reject" || j%3 == i%3 || strings.HasPrefix(e.name, "opt"))
 			if withCoq {
 				coqUsed++
 			}
@@ -893,4 +904,91 @@ func main() {
 
 		w.badFetch = map[string]*keyInfo{}
 	}
+}
+
+// leafCoverage counts the scalar leaves of a document (outside "@context" members) and the leaves of its expanded
+// form (values, ids, node types).  An undefined term, at any depth, loses its leaves in expansion.
+func (w *world) leafCoverage(b []byte) (int, int, error) {
+	var m map[string]interface{}
+	if err := json.Unmarshal(b, &m); err != nil {
+		return 0, 0, err
+	}
+
+	delete(m, "jwt")
+
+	nd := countDocLeaves(m)
+
+	opts := ld.NewJsonLdOptions("")
+	opts.ProcessingMode = ld.JsonLd_1_1
+	opts.DocumentLoader = w.loader
+
+	exp, err := ld.NewJsonLdProcessor().Expand(m, opts)
+	if err != nil {
+		return nd, 0, err
+	}
+
+	return nd, countExpandedLeaves(exp), nil
+}
+
+func countDocLeaves(v interface{}) int {
+	switch x := v.(type) {
+	case map[string]interface{}:
+		n := 0
+
+		for k, e := range x {
+			if k != "@context" {
+				n += countDocLeaves(e)
+			}
+		}
+
+		return n
+	case []interface{}:
+		n := 0
+		for _, e := range x {
+			n += countDocLeaves(e)
+		}
+
+		return n
+	case nil:
+		return 0
+	}
+
+	return 1
+}
+
+func countExpandedLeaves(v interface{}) int {
+	switch x := v.(type) {
+	case map[string]interface{}:
+		if _, isValue := x["@value"]; isValue {
+			return 1
+		}
+
+		n := 0
+
+		for k, e := range x {
+			switch k {
+			case "@id":
+				n++
+			case "@type":
+				if a, ok := e.([]interface{}); ok {
+					n += len(a)
+				} else {
+					n++
+				}
+			default:
+				n += countExpandedLeaves(e)
+			}
+		}
+
+		return n
+	case []interface{}:
+		n := 0
+		for _, e := range x {
+			n += countExpandedLeaves(e)
+		}
+
+		return n
+	}
+
+	return 0
 }
